@@ -3,9 +3,56 @@ import PPLV.Watchdog.ProofsClock7
 /-! Consequences of the invariants, in the form used by `PPLV/Props/C19.lean`. -/
 namespace PPLV.Watchdog
 
+theorem setTimerH_log_suffix (τ : St) (t : Time) (base : List Event) (h : ∃ es, τ.log = es ++ base) :
+    ∃ es, (setTimerH τ t).log = es ++ base := by
+  obtain ⟨es, hes⟩ := h
+  unfold setTimerH
+  split
+  · exact ⟨Event.internalError :: es, by simp [hes]⟩
+  · split
+    · exact ⟨Event.hset t.toUs :: es, by simp [hes]⟩
+    · exact ⟨Event.internalError :: es, by simp [hes]⟩
+
+theorem handlerBody_log_suffix (b : Bool) (sync : Option Fin) (τ : St) :
+    ∃ es, (handlerBody b sync τ).log = es ++ τ.log := by
+  unfold handlerBody
+  simp only
+  split
+  · exact ⟨[], rfl⟩
+  · split
+    · exact ⟨_, rfl⟩
+    · split
+      · exact setTimerH_log_suffix _ _ _ ⟨_, rfl⟩
+      · split
+        · exact ⟨Event.internalError :: _, rfl⟩
+        · exact ⟨_, rfl⟩
+
+theorem finish_log_suffix (τ : St) (fin : Fin) : ∃ es, (finish τ fin).log = es ++ τ.log := by
+  cases fin <;> exact ⟨[_], rfl⟩
+
+theorem leave_log_suffix (τ : St) (fin : Fin) : ∃ es, (leave τ fin).log = es ++ τ.log := by
+  unfold leave
+  split
+  · exact ⟨[], rfl⟩
+  · exact finish_log_suffix { τ with inCrit := false } fin
+
 theorem step_log_suffix (b : Bool) (σ : St) : ∃ es, (step b σ).log = es ++ σ.log := by
   unfold step
-  split <;> (repeat' split) <;>
+  split
+  case h_7 => exact leave_log_suffix σ _
+  case h_14 => exact leave_log_suffix σ _
+  case h_16 =>
+    split
+    · simp only
+      split
+      · obtain ⟨e1, h1⟩ := handlerBody_log_suffix b (some _) σ
+        obtain ⟨e2, h2⟩ := finish_log_suffix (handlerBody b (some _) σ) _
+        exact ⟨e2 ++ e1, by rw [h2, h1]; simp⟩
+      · exact handlerBody_log_suffix b (some _) σ
+    · exact finish_log_suffix σ _
+  case h_18 => exact finish_log_suffix σ _
+  all_goals
+    (repeat' split) <;>
     (first
       | exact ⟨[], rfl⟩
       | exact ⟨[_], rfl⟩
